@@ -119,10 +119,22 @@ func TestC19(t *testing.T) {
 			labels = append(labels, c[0].(string), c[1].(string))
 			set[labels[0]], set[labels[1]] = true, true
 		}
+		// label family: IPv4 ip:port, IPv6 [addr]:port of one subnet, long DNS
+		// names of one domain (labels that share long prefixes)
+		family := rapid.SampledFrom([]string{"ipv4", "ipv4", "ipv6", "dns"}).Draw(t, "labelFamily")
 		for len(labels) < n {
 			l := labelOf(rapid.IntRange(0, 1<<20).Draw(t, "label"))
 			if rapid.IntRange(0, 3).Draw(t, "otherPort") == 0 {
 				l = strings.Replace(l, ":11211", fmt.Sprintf(":%d", rapid.IntRange(1, 65535).Draw(t, "port")), 1)
+			}
+			switch family {
+			case "ipv6":
+				l = fmt.Sprintf("[2001:db8:85a3:8d3:1319:8a2e:370:%x]:11211", rapid.IntRange(0, 0xffff).Draw(t, "v6host"))
+				if rapid.IntRange(0, 3).Draw(t, "v6port") == 0 {
+					l = strings.Replace(l, ":11211", fmt.Sprintf(":%d", rapid.IntRange(11000, 11999).Draw(t, "port6")), 1)
+				}
+			case "dns":
+				l = fmt.Sprintf("memcached-cache-shard-%03d.prod.eu-west-1.example.internal:11211", rapid.IntRange(0, 999).Draw(t, "dnsShard"))
 			}
 			if !set[l] {
 				set[l] = true
@@ -220,7 +232,7 @@ func TestC19(t *testing.T) {
 			}
 		}
 		nt := n >= 2 && nonIdentity
-		cl := []string{fmt.Sprintf("n=%d", n)}
+		cl := []string{fmt.Sprintf("n=%d", n), "labels:" + family}
 		if useColl {
 			cl = append(cl, "collision-bearing-set")
 		}
